@@ -200,6 +200,55 @@ func C11(p *an.Prog, r *an.Report) {
 		if !found {
 			bad = append(bad, "no `size > 65535` rejection found")
 		}
+		// the guarded size is accumulated from the encoded lengths: every loop-carried addition
+		// adds len(<string>) (the bytes the serializer will emit), not a decoded/declared length
+		nAcc := 0
+		for _, blk := range vtm.Blocks {
+			for _, in := range blk.Instrs {
+				add, ok := in.(*ssa.BinOp)
+				if !ok || add.Op != token.ADD {
+					continue
+				}
+				var acc *ssa.Phi
+				var term ssa.Value
+				if ph, ok := add.X.(*ssa.Phi); ok {
+					acc, term = ph, add.Y
+				} else if ph, ok := add.Y.(*ssa.Phi); ok {
+					acc, term = ph, add.X
+				}
+				if acc == nil {
+					continue
+				}
+				feeds := false
+				for _, e := range acc.Edges {
+					if e == ssa.Value(add) {
+						feeds = true
+					}
+					// nested loops: the inner accumulator feeds the outer phi
+					if ph2, ok := e.(*ssa.Phi); ok {
+						for _, e2 := range ph2.Edges {
+							if e2 == ssa.Value(add) {
+								feeds = true
+							}
+						}
+					}
+				}
+				if !feeds || !isIntegerType(add.Type()) {
+					continue
+				}
+				if c, isC := term.(*ssa.Const); isC && c.Value != nil {
+					continue // loop counters
+				}
+				nAcc++
+				call, isCall := term.(*ssa.Call)
+				if !isCall || !isBuiltin(call, "len") {
+					bad = append(bad, "the size accumulated at "+p.Pos(add.Pos())+" is not len() of the encoded string (a declared or decoded length under-/over-counts the bytes that will be written)")
+				}
+			}
+		}
+		if nAcc == 0 {
+			bad = append(bad, "no loop-carried size accumulation found in ValuesToMapping")
+		}
 		r.Check(len(bad) == 0, "C11.M3", "ValuesToMapping/size-limit", p.FnPos(vtm), "sizes above 65,535 are rejected and the accepted size is what gets encoded", bad...)
 	}
 
@@ -428,6 +477,26 @@ func c11Threshold(p *an.Prog, r *an.Report) {
 			fs = append(fs, fmt.Sprintf("a well-formed final pair of %d..%d bytes (e.g. a one-character key with an empty value) would be dropped without an error", minPair, T-1))
 		}
 		r.Check(T <= minPair, "C11.M5", "reader-threshold/"+an.FnKey(f), p.FnPos(f), what, fs...)
+		// M5c: content-aware refinement. The length-only region above cannot see conditions on the
+		// length bytes; the relational engine refutes "the predicate can accept an L-byte remainder"
+		// for each short length L a well-formed pair can have (minPair .. minPair+4).
+		bnd := an.NewBounds(p)
+		var never []string
+		for L := minPair; L <= minPair+4; L++ {
+			lt := an.LinTerm(an.Term{K: an.TermKeyOf(f.Params[0]), Len: true})
+			extra := []an.Fact{{L: lt.Add(an.LinConst(L), -1)}, {L: an.LinConst(L).Add(lt, -1)}}
+			if !bnd.ResultFeasible(f, true, extra) {
+				never = append(never, fmt.Sprint(L))
+			}
+		}
+		r.Check(len(never) == 0, "C11.M5", "reader-accepts-short-pairs/"+an.FnKey(f), p.FnPos(f),
+			fmt.Sprintf("for every remaining length from %d to %d some content makes the reader attempt the pair (a complete short final pair is not dropped)", minPair, minPair+4),
+			func() []string {
+				if len(never) == 0 {
+					return nil
+				}
+				return []string{"no content of length " + strings.Join(never, ", ") + " bytes is ever accepted: a well-formed final pair of that size is silently dropped"}
+			}()...)
 	}
 	r.Floor("pair_threshold_predicates", n, 1)
 	// M5b: when the loop stops on the threshold with bytes left, an error is recorded
